@@ -100,7 +100,7 @@ fn trace_of<S>(nodes: &[Node<S>], mut idx: usize) -> (usize, Vec<usize>) {
 pub fn replay<Y: System>(sys: &Y, init: usize, trace: &[usize]) -> Result<Y::State, (usize, String)> {
     let mut s = sys.init().into_iter().nth(init).expect("init index");
     for (i, &t) in trace.iter().enumerate() {
-        match sys.step(&s, t) {
+        match crate::util::guard(|| sys.step(&s, t)).and_then(|r| r) {
             Ok((n, _)) => s = n,
             Err(m) => return Err((i, m)),
         }
@@ -145,7 +145,7 @@ pub fn explore_with<Y: System>(sys: &Y, lim: &Limits, mut visit: impl FnMut(&Y::
                 .flat_map_iter(|&pi| {
                     let s = &nodes[pi as usize].state;
                     (0..nt).filter(move |&t| sys.enabled(s, t)).map(move |t| {
-                        let r = sys.step(s, t).map(|(n, o)| {
+                        let r = crate::util::guard(|| sys.step(s, t)).and_then(|r| r).map(|(n, o)| {
                             let k = sys.key(&n);
                             (n, o, k)
                         });
